@@ -311,10 +311,6 @@ func (c *Ctx) checkCacheFollowsStore(only map[string]bool) {
 			}
 			r.Func(fk(fn))
 			errV := errValue(s.call, 0)
-			construct := fmt.Sprintf("%s: Subs.Update%v then perUser rewritten", fk(fn), keys)
-			if n := countSame(r, "C08.3-cache-follows-store", construct); n > 0 {
-				construct = fmt.Sprintf("%s #%d", construct, n+1)
-			}
 			isCache := func(in ssa.Instruction) bool {
 				mu, ok := in.(*ssa.MapUpdate)
 				if ok && core.IsFieldLoad(perUser)(mu.Map) {
@@ -347,20 +343,52 @@ func (c *Ctx) checkCacheFollowsStore(only map[string]bool) {
 				}
 				return errorsNewNonNil(v)
 			}
-			core.NilWalkAfter(fn, s.call, nil, isCache, func(in ssa.Instruction, f core.NilFacts) {
-				ret, ok := in.(*ssa.Return)
-				if !ok {
-					return
+			onRet := func(ei int) func(in ssa.Instruction, f core.NilFacts) {
+				return func(in ssa.Instruction, f core.NilFacts) {
+					ret, ok := in.(*ssa.Return)
+					if !ok {
+						return
+					}
+					if ei >= 0 {
+						if k, n := core.Nilness(ret.Results[ei], f); k && !n {
+							return // error return
+						}
+					}
+					miss = true
+					where = in
 				}
-				if ei >= 0 {
-					if k, n := core.Nilness(ret.Results[ei], f); k && !n {
-						return // error return
+			}
+			core.NilWalkAfter(fn, s.call, nil, isCache, onRet(ei))
+			// the handler: this function, or - when the update sits in one phase of a split handler and
+			// the cache is written in another - the nearest function up the chain of sole callers whose
+			// region writes Topic.perUser at all
+			isCacheWrite := func(in ssa.Instruction) bool {
+				mu, ok := in.(*ssa.MapUpdate)
+				return ok && core.IsFieldLoad(perUser)(mu.Map)
+			}
+			owner := c.climbUntil(fn, func(R *ssa.Function) bool { return isPtrToNamedRecv(R, "Topic") && c.regionHas(R, isCacheWrite) })
+			if miss && owner != fn {
+				// walk on into helpers and, after this function returns, in the handler
+				if root := owner; root != nil {
+					miss, where = false, nil
+					var res core.NilWalkResult
+					c.withRegionUp(root, func() {
+						core.WalkDeepUp(2, func() {
+							res = core.NilWalkAfter(fn, s.call, nil, isCache, onRet(errIndex(root.Signature)))
+						})
+					})
+					if res.Overflow {
+						miss = true
 					}
 				}
-				miss = true
-				where = in
-			})
+			}
 			core.ExtraNilness = nil
+			// the construct names the handler in which the path without the rewrite ends (the same
+			// handler whether or not the update was moved into a phase of it)
+			construct := fmt.Sprintf("%s: Subs.Update%v then perUser rewritten", fk(owner), keys)
+			if n := countSame(r, "C08.3-cache-follows-store", construct); n > 0 {
+				construct = fmt.Sprintf("%s #%d", construct, n+1)
+			}
 			r.Check(!miss, "C08.3-cache-follows-store", construct, c.pos(s.call), "every success path after the update rewrites Topic.perUser",
 				"after a successful Subs.Update the cached record is not rewritten on some path to a success return"+posOf(c, where)+": the live topic keeps acting on the old attributes until reload")
 		}
